@@ -71,3 +71,9 @@ claim("C10",
       "Decided for all handshake packet contents: the server echoes exactly the N field of the SYN it received and later adopts that same value, proved <= 254; the restart shortcut is reachable only after a SYN was echoed; the client sends SYNACK only under respSYN.N == cfg.n and fails otherwise; while waiting for SYN, no successfully parsed non-SYN packet reaches handshake completion without another receive (server: except SYNACK/DATA after a restart); NewClientConn rejects 255. These are the safety clauses of the property ('never a window the client did not propose or that cannot be represented').",
       "Not decided: convergence under loss/duplication/delay and stale packets, and 'once the transport behaves a handshake succeeds' (liveness over schedules).",
       "DESIGN.md §4 C10")
+
+claim("C18",
+      "lockset (must-held, interprocedural) + happens-before race analysis over goroutine roots; close-site idiom classification; may-held lock-order graph with cycle detection and blocking-under-lock rule",
+      "Schedules are not enumerated: for every field of the connection-state types, every pair of accesses reachable from two goroutine roots (or a multi-instance root) with a write must share a lock (exclusive on the write), be atomic on both sides, or be ordered by publication, before-go along every call path, or after-Wait (with restarts serialised by a common lock) - a sound-by-construction argument for the absence of data races under the stated ownership assumption, which is exactly what 'under any interleaving' requires and what a race-detector run cannot give. Every close(ch) must match a once/owner idiom, several close sites of one channel must exclude each other by an exclusive lock and a terminal close must come after the goroutines that re-create it, and no closable channel is sent on (no close-of-closed / send-on-closed panics). The may-held lock acquisition graph through calls must be acyclic, no lock is re-acquired while held, and nothing that can wait indefinitely runs under a lock that the awaited goroutine needs.",
+      "Assumes a struct's mutex guards the fields of the same instance (lock classes are fields, not objects). Message structs handed over through channels/callbacks are excluded (ownership transfer). Orderings outside the three happens-before idioms are reported as findings rather than proved. Scope: package gbn.",
+      "DESIGN.md §4 C18")
